@@ -245,3 +245,13 @@ seed(101, "skinny64_permute_tk: shift typo in the byte-order-neutral #else path 
      ("src/skinny64-cipher.c", "    tk->row[1] = ((row2 >> 8) & 0x00F0U) |", "    tk->row[1] = ((row2 >> 4) & 0x00F0U) |"))
 seed(102, "mantis_update_tweak_inverse (scalar): mask/shift typo, h' no longer inverts h (the 4 published vectors use one tweak)", ["C03.R3", "C06.R4"],
      ("src/mantis-cipher.c", "    tweak->row[3] =  (row0        & 0xFF00U) |\n                    ((row2 <<  4) & 0x00F0U) |\n                    ((row2 >> 12) & 0x000FU);", "    tweak->row[3] =  (row0        & 0xFF00U) |\n                    ((row2 <<  4) & 0x00F0U) |\n                    ((row2 >>  8) & 0x000FU);"))
+
+# ---- E10 (GF(2) affine maps of the round functions)
+seed(110, "vec128 parallel ENCRYPT only: ShiftRows rotates row1 by 16 instead of 8 (never reached by the tests on an AVX2 host)", ["C03.R6", "C06.R5", "C07.R6"],
+     ("src/skinny128-parallel-vec128.c", "        row1 = skinny128_rotate_right(row1, 8);\n        row2 = skinny128_rotate_right(row2, 16);\n        row3 = skinny128_rotate_right(row3, 24);", "        row1 = skinny128_rotate_right(row1, 16);\n        row2 = skinny128_rotate_right(row2, 16);\n        row3 = skinny128_rotate_right(row3, 24);"))
+seed(111, "CTR vec128 batch encryptor: MixColumns xors row3 instead of row2 into row1 (never reached by the tests on an AVX2 host)", ["C06.R5"],
+     ("src/skinny128-ctr-vec128.c", "        row1 ^= row2;\n        row2 ^= row0;", "        row1 ^= row3;\n        row2 ^= row0;"))
+seed(112, "32-bit word path of the scalar SKINNY-128 encrypt puts the round constant 0x02 into row 1 (only in the non-default configuration)", ["C12.R5", "C03.R6"],
+     ("src/skinny128-cipher.c", "        state.row[0] ^= schedule->row[0];\n        state.row[1] ^= schedule->row[1];\n        state.row[2] ^= 0x02;\n#endif\n\n        /* Shift the rows */", "        state.row[0] ^= schedule->row[0];\n        state.row[1] ^= schedule->row[1];\n        state.row[1] ^= 0x02;\n#endif\n\n        /* Shift the rows */"))
+seed(113, "SKINNY-64 parallel vec128 decrypt: inverse MixColumns forgets the row0 term of row2", ["C03.R6", "C06.R5"],
+     ("src/skinny64-parallel-vec128.c", "        row2 = temp ^ row0;", "        row2 = temp;"))
